@@ -18,6 +18,12 @@ structure Line where
   c : Cfg
   o : Fit.DecApi.Opts
   files : List FileIn
+  /-- the decoder runs with the standard factory (`df:std`) -/
+  std : Bool := false
+  /-- `px=1`: component expansion ON under a factory whose component graph the model does not have (the standard factory):
+  both sides print the decoded messages WITHOUT the fields created by expansion and with the values of the wire fields that
+  are destinations of a component of their message MASKED — reading (ii) of the property -/
+  px : Bool := false
 
 def parseHdrTok (s : String) : Option FileIn :=
   match stripPrefix? s "H" with
@@ -54,8 +60,25 @@ def parseLine (args : List String) : Option Line :=
     let w := W.mkOpts (W.kvGet kv "a") (W.kvGet kv "h") (W.kvGet kv "l")
     some { c := { w := w, pvOpt := W.kvGet kv "pv", vo := va.o, D := va.D, profileVersion := Fit.Gen.Wire.profileVersion },
            o := { chk := W.kvGet kv "chk" != 0, exp := W.kvGet kv "exp" != 0, fac := fac },
-           files := files }
+           files := files, std := d == "df:std", px := W.kvGet kv "px" != 0 }
   | _ => none
+
+/-- the field numbers of message `m` that are destinations of a component of some field of that message in the decoder's
+factory (standard factory: regenerated table `Fit.Gen.Wire.stdCompDests`, sub-field components included) -/
+def compDests (l : Line) (m : Nat) : List Nat :=
+  if l.std then (Fit.Gen.Wire.stdCompDests.filter (·.1 == m)).map (·.2)
+  else (l.o.fac.filter (·.mesgNum == m)).flatMap fun e => e.info.comps.map (·.fieldNum)
+
+/-- a decoded message for reading (ii): expanded fields left out, destinations masked (flag m, value u8:00) -/
+def showMasked (l : Line) (m : Fit.DecApi.Msg) : String :=
+  let ds := compDests l m.num
+  let fs := (m.fields.filter (!·.expanded)).map fun f =>
+    if ds.contains f.num then
+      let fl := DecApi.flagsOf f
+      s!"F{f.num}:{hexByte f.bt}:{if fl == "-" then "m" else fl ++ "m"}:u8:00"
+    else DecApi.showField f
+  "M" ++ toString m.num ++ "h" ++ toString m.header ++ "{" ++ ";".intercalate fs ++ "|" ++
+    ";".intercalate (m.devs.map fun d => s!"D{d.idx}.{d.num}:{printValue d.value}") ++ "}"
 
 def encErrName : EncErr → String
   | .empty => "err:empty"
@@ -108,8 +131,8 @@ def answer (l : Line) : String :=
     | some (i, e) => s!"{encErrName e}@{i}"
   let vs := (kept.zipIdx.flatMap fun (ms, i) => ms.map fun m => s!"V{i}:{printMessage m}")
   let (fits, e) := decodeChain l.o bytes
-  let ss := (fits.zipIdx.flatMap fun (f, i) => f.msgs.map fun m => s!"S{i}:{DecApi.showMsg m}")
-  let re := if e.isNone && !fits.isEmpty then reencode l fits else "-"
+  let ss := (fits.zipIdx.flatMap fun (f, i) => f.msgs.map fun m => s!"S{i}:{if l.px then showMasked l m else DecApi.showMsg m}")
+  let re := if e.isNone && !fits.isEmpty && !l.px then reencode l fits else "-"
   " ".intercalate ([s!"enc={encS}"] ++ vs ++ [s!"dec={outName e}", s!"ns={fits.length}"] ++ ss ++ [s!"re={re}"])
 
 /-! ### parsing the implementation's answer -/
@@ -194,6 +217,62 @@ def showN (m : NMsg) : String :=
   s!"M{m.num}\{" ++ ";".intercalate (m.fields.map fun f => s!"F{f.num}:{hexByte f.bt}:{printValue f.value}") ++ "|" ++
     ";".intercalate (m.devs.map fun d => s!"D{d.idx}.{d.num}:{printValue d.value}") ++ "}"
 
+/-- a decoded field of a `px=1` line: (number, base type, value) and whether the value is masked -/
+def parseMField (s : String) : Option (NField × Bool) :=
+  match s.splitOn ":" with
+  | [h, bt, fl, tag, payload] =>
+    if !h.startsWith "F" then none else do
+      let num ← parseDec (h.drop 1).toString 256
+      let bt ← parseHexByte bt
+      let v ← parseValueTP tag payload
+      some (⟨num, bt, v⟩, fl.contains 'm')
+  | _ => none
+
+def parseMMsg (s : String) : Option (Nat × List (NField × Bool) × List NDev) :=
+  if !s.startsWith "M" || !s.endsWith "}" then none else
+  match ((s.drop 1).dropEnd 1).toString.splitOn "{" with
+  | [head, body] =>
+    match head.splitOn "h", body.splitOn "|" with
+    | [num, _], [fl, dl] => do
+      let num ← parseDec num 65536
+      let fs ← if fl.isEmpty then some [] else (fl.splitOn ";").mapM parseMField
+      let ds ← if dl.isEmpty then some [] else (dl.splitOn ";").mapM parseDDev
+      some (num, fs, ds)
+    | _, _ => none
+  | _ => none
+
+/-- reading (ii) of the property on the implementation's answer of a `px=1` line (real decoder, component expansion ON,
+standard factory): after deleting the fields marked expanded (the harness left them out), every decoded sequence is the
+strict normal form of what validation retained — message numbers, order, per field number and base type, value; developer
+fields — except the VALUES of wire fields that are destinations of a component of their message (masked on both sides) -/
+def propMasked (l : Line) (impl : String) : String :=
+  match parseImpl impl with
+  | none => if impl == "bad-op" then "n/a" else "fail:answer"
+  | some r =>
+    if r.enc.startsWith "panic" then "fail:encode-panic"
+    else if r.kept.isEmpty then "n/a"
+    else if r.dec != "end" then s!"fail:decode-{r.dec}"
+    else if r.ns != r.kept.length then "fail:sequence-count"
+    else if !(r.kept.all (inDomain l.o.fac)) then "n/a"
+    else
+      let toks := ((impl.splitOn " ").filter (· ≠ "")).filter (·.startsWith "S")
+      match groupTok "S" parseMMsg toks with
+      | none => "fail:answer"
+      | some seqs =>
+        let seqs := seqs ++ List.replicate (r.kept.length - seqs.length) []
+        let eqM (want : NMsg) (got : Nat × List (NField × Bool) × List NDev) : Bool :=
+          want.num == got.1 && want.devs == got.2.2 && want.fields.length == got.2.1.length &&
+            (want.fields.zip got.2.1).all fun (w, g) => w.num == g.1.num && w.bt == g.1.bt && (g.2 || w.value == g.1.value)
+        match (r.kept.zip seqs).zipIdx.findSome? (fun ((kept, got), i) =>
+            let want := seqBack strictValue false l.o.fac l.c.w {} kept
+            if want.length != got.length then some s!"fail:seq{i}:message-count"
+            else
+              match (want.zip got).zipIdx.find? (fun p => !eqM p.1.1 p.1.2) with
+              | some (_, k) => some s!"fail:seq{i}.msg{k}:expansion-on"
+              | none => none) with
+        | some why => why
+        | none => "ok"
+
 /-- the property on the implementation's answer: what was decoded is the normal form of what validation retained -/
 def prop (l : Line) (impl : String) : String :=
   match parseImpl impl with
@@ -240,7 +319,7 @@ def hRtE2E : Handler := fun r =>
     match r.mode with
     | .model => answer l
     | .spec => "n/a"
-    | .prop => prop l r.impl
+    | .prop => if l.px then propMasked l r.impl else prop l r.impl
     | .kf => kf l
 
 /-! ### op `redec`: the last sentence of the property on ARBITRARY decoder output (syntax: harness/fam_rte2e_redec.go) -/
